@@ -79,7 +79,7 @@ class Z4(Symmetry):
 
     def sign(self, charge: int, dual=True) -> int:
         if dual:
-            return 4 - charge
+            return (4 - charge) % 4
         return charge
 
     def parity(self, charge: int) -> int:
